@@ -18,10 +18,19 @@ func (fg *FnGen) step(fr *Frame, b *ssa.BasicBlock, ins ssa.Instruction, st *Sta
 	ti := fg.g.ti
 	switch x := ins.(type) {
 	case *ssa.DebugRef:
+		// source-level names of locals (GlobalDebug): usable in postconditions of the top frame
+		if fr.top && !x.IsAddr && x.Object() != nil {
+			if _, isVar := x.Object().(*types.Var); isVar {
+				fr.noteLocal(b, x.Object().Name(), fg.val(fr, x.X), x.X.Type())
+			}
+		}
 		return st
 	case *ssa.Phi:
 		if fr.loopHdr[b] != nil {
 			fg.headerPhi(fr, x)
+			if fr.top && x.Comment != "" {
+				fr.noteLocal(b, x.Comment, fr.vals[x], x.Type())
+			}
 			return st
 		}
 		var def *Term
@@ -48,6 +57,9 @@ func (fg *FnGen) step(fr *Frame, b *ssa.BasicBlock, ins ssa.Instruction, st *Sta
 			def = c
 		}
 		fr.vals[x] = def
+		if fr.top && x.Comment != "" {
+			fr.noteLocal(b, x.Comment, def, x.Type())
+		}
 		return st
 	case *ssa.Alloc:
 		ref := fg.freshConst(fr.prefix+"alloc_"+x.Name(), SInt)
@@ -291,7 +303,7 @@ func (fg *FnGen) step(fr *Frame, b *ssa.BasicBlock, ins ssa.Instruction, st *Sta
 		for _, r := range x.Results {
 			res = append(res, fg.val(fr, r))
 		}
-		fr.rets = append(fr.rets, retSite{reach: reach, results: res, state: st, instr: x})
+		fr.rets = append(fr.rets, retSite{reach: reach, results: res, state: st, instr: x, locals: fr.localsAt(b)})
 		return nil
 	case *ssa.Panic:
 		if fr.top && fg.ct != nil && fg.ct.Options["may_panic"] != "" {
@@ -424,7 +436,7 @@ func (fg *FnGen) binop(fr *Frame, x *ssa.BinOp, reach *Term) *Term {
 			if b.isSmallInt() && b.Int >= 0 && (b.Int&(b.Int+1)) == 0 && isUnsigned {
 				return App("mod", SInt, a, IntLit(b.Int+1))
 			}
-			r := App("bvand", SInt, a, b)
+			r := App("go_bvand", SInt, a, b)
 			fg.note("bitwise operators are uninterpreted functions (except masks by 2^k-1 on unsigned values)")
 			return r
 		}
@@ -437,19 +449,19 @@ func (fg *FnGen) binop(fr *Frame, x *ssa.BinOp, reach *Term) *Term {
 				return App("div", SInt, a, IntLit(1<<uint(b.Int)))
 			}
 			fg.note("bitwise operators are uninterpreted functions (except masks by 2^k-1 on unsigned values)")
-			r := App("bv"+strings.ToLower(x.Op.String()), SInt, a, b)
+			r := App("go_bv"+strings.ToLower(x.Op.String()), SInt, a, b)
 			switch x.Op {
 			case token.OR:
-				return App("bvor", SInt, a, b)
+				return App("go_bvor", SInt, a, b)
 			case token.XOR:
-				return App("bvxor", SInt, a, b)
+				return App("go_bvxor", SInt, a, b)
 			case token.SHL:
-				return App("bvshl", SInt, a, b)
+				return App("go_bvshl", SInt, a, b)
 			case token.SHR:
-				return App("bvshr", SInt, a, b)
+				return App("go_bvshr", SInt, a, b)
 			}
 			_ = r
-			return App("bvandnot", SInt, a, b)
+			return App("go_bvandnot", SInt, a, b)
 		}
 	}
 	c := fg.freshConst(fr.prefix+x.Name(), ti.sortOf(x.Type()))
@@ -495,7 +507,7 @@ func (fg *FnGen) unop(fr *Frame, x *ssa.UnOp, st *State, reach *Term) *State {
 			fr.vals[x] = fg.freshConst(fr.prefix+x.Name(), ti.sortOf(x.Type()))
 		}
 	case token.XOR:
-		fr.vals[x] = App("bvnot", SInt, fg.val(fr, x.X))
+		fr.vals[x] = App("go_bvnot", SInt, fg.val(fr, x.X))
 	case token.ARROW:
 		fg.note("channel receive abstracted (arbitrary value, arbitrary ok) in " + fr.fn.Name())
 		if x.CommaOk {
@@ -549,7 +561,7 @@ func (fg *FnGen) addrOf(fr *Frame, p ssa.Value) *Addr {
 	return &Addr{Kind: "opaque", GoTyp: elem}
 }
 
-func (fg *FnGen) load(fr *Frame, p ssa.Value, st *State, reach *Term, pos token.Pos) *Term {
+func (fg *FnGen) loadRaw(fr *Frame, p ssa.Value, st *State, reach *Term, pos token.Pos) *Term {
 	a := fg.addrOf(fr, p)
 	ti := fg.g.ti
 	pt := p.Type().Underlying().(*types.Pointer)
